@@ -186,7 +186,7 @@ pub fn gen(a: &Args) -> String {
     let mut r = Rng::new(a.seed);
     let mut out = Out::default();
     out.buf.push_str(&format!("#rule {}\n", RULE));
-    let n_cases = if a.thorough { 30000 } else { 2500 };
+    let n_cases = if a.thorough { 60000 } else { 5000 };
     for id in 0..n_cases {
         let mut cr = r.fork();
         let len = if a.thorough { cr.range(5, 150) } else { cr.range(5, 60) } as usize;
